@@ -461,6 +461,7 @@ def run(ctx):
     ctx.cov["samples"] = s1["samples"] + s2["samples"]
     ctx.cov["input_distribution"] = {"histories": {k: s1[k] for k in ("candidates", "exhaustive_sets", "random", "distinct_sequences", "hist", "op_kinds", "frame_checked_ops")},
                                      "bad_arguments": s2["dist"]}
+    ctx.cov["input_distribution"]["histories"]["start_states"] = {n: ";".join(ops) for n, ops in g.START}
     ctx.cov["traces_validated_against_impl"] = s1["distinct_sequences"]
     ctx.cov["entry_points"] = s2["entry_points"]
 
